@@ -777,7 +777,7 @@ pub fn check_c20_wide(case: &SearchCase) -> Option<Finding> {
     use crate::ident::WideId;
     let (setup, ops) = &case.instances[0];
     let k = setup.codec;
-    if k == crate::codec::CodecKind::Fixed {
+    if !k.is_bundled() {
         return None;
     }
     for op in ops {
@@ -962,7 +962,7 @@ pub fn search_c20(seed: u64, first: u64, n_evals: u64) -> SearchOut {
                 out.violations.push((fd, case.clone()));
             }
         }
-        if ci % 4 == 0 && codec != crate::codec::CodecKind::Fixed {
+        if ci % 4 == 0 && codec.is_bundled() {
             let wcase = SearchCase { check: "c20w".into(), instances: case.instances.clone() };
             out.bump("wide-identity");
             if let Some(fd) = check_c20_wide(&wcase) {
